@@ -188,6 +188,16 @@ def oracle(spec, o):
         for name in ("default", "strict"):
             if o[name] != marker:
                 return f"{name}_classifier: marker type {spec['base']} must win over status/code/name, got {o[name]}"
+    if marker is None and not spec["attrs"] and not spec["args"]:
+        # nothing but the type name is left: strict_classifier must not look at it, default_classifier follows the name table
+        n = spec["name"].lower()
+        want = "AUTH" if ("auth" in n or "unauthoriz" in n or "credential" in n) else \
+            "PERMISSION" if ("forbid" in n or "permission" in n) else "TRANSIENT" if ("timeout" in n or "connection" in n) else "UNKNOWN"
+        if o["strict"] != "UNKNOWN":
+            return (f"strict_classifier answered {o['strict']} for a bare exception of type {spec['name']!r} (no marker, status or code): "
+                    f"it must not use the type name (asked after default_classifier had seen the same type)")
+        if o["default"] != want:
+            return f"default_classifier answered {o['default']} for a bare exception of type {spec['name']!r}, the name table says {want}"
     st = spec["attrs"].get("status")
     if marker is None and st is not None and st["t"] == "int" and int(st["v"]) != 0:
         z = int(st["v"])
